@@ -584,3 +584,37 @@ def ptv_fns(text, features):
 def ptv_unit(text, features):
     body, fns = ptv_fns(text, features)
     return "use vstd::prelude::*;\nverus! {\n" + PTV_MODEL + body + vlib.verus_canary("canary_ptv", "x: u64", []) + "\n} // verus!\nfn main() {}\n", fns
+
+
+# ---- state_name_from_pattern (whole) -----------------------------------------------------------------------------------------------
+SNAME_MODEL = """
+#[derive(Clone, Copy)]
+pub struct Identifier { pub id: u64 }
+#[derive(PartialEq, Eq, Structural)]
+pub struct NameS { pub id: u64 }
+pub uninterp spec fn name_str(i: Identifier) -> NameS;
+impl Identifier { #[verifier::external_body] pub fn to_string(&self) -> (r: NameS) ensures r == name_str(*self), { unimplemented!() } }
+pub struct PatternTupleStruct { pub name: Identifier, pub id: u64 }
+pub struct Atom { pub name: Identifier }
+pub enum Literal { Atom(Atom), Other(u64) }
+pub enum Expression { Literal(Literal), Other(u64) }
+pub enum Pattern { TupleStruct(PatternTupleStruct), Expression(Expression), Other(u64) }
+// ---- THE CONTRACT (C17: "a transition to an undeclared state ... is rejected"): the state a pattern names is the name of a `:Name(..)` pattern or of a bare atom `:Name`;
+// any other pattern names no state (and is therefore not checked against the declared states)
+pub open spec fn names_state(p: Pattern) -> Option<NameS> {
+  match p {
+    Pattern::TupleStruct(t) => Some(name_str(t.name)),
+    Pattern::Expression(Expression::Literal(Literal::Atom(a))) => Some(name_str(a.name)),
+    _ => None,
+  }
+}
+"""
+
+
+def state_name_unit(text):
+    """`state_name_from_pattern` (whole body, verbatim; `String` -> an opaque name value)"""
+    sig, body = extract_fn(text, "state_name_from_pattern")
+    b = re.sub(r"//[^\n]*", "", body).replace("\r", "")
+    return ("use vstd::prelude::*;\nverus! {\n" + SNAME_MODEL +
+            "fn state_name_from_pattern(pattern: &Pattern) -> (r: Option<NameS>)\n  ensures r == names_state(*pattern),\n" + b + "\n"
+            + vlib.verus_canary("canary_sname", "x: u64", []) + "\n} // verus!\nfn main() {}\n")
